@@ -105,14 +105,18 @@ PendingRerun(withCtx) ==
 \* a call that (by its result) stopped or replaced the routine was issued after j returned and
 \* before j's backoff deadline.  (A call issued at or after the deadline only overtakes the fired
 \* timer's callback: O5.)  Entries after that are not attributable to j's retry.
+\* Two states of a StateRoutineContainer are "the same state" when its compare function says so (the
+\* harness's compares modulo 10: s and s+10 are equal but not identical); routines are identified as such.
+KClass(k) == IF cfg.variant = "state" THEN k % 10 ELSE k
+
 Stopped(j) == \E id \in DOMAIN calls : calls[id].done /\ calls[id].sup /\ calls[id].cclk > inst[j].lclk
                                         /\ calls[id].t < inst[j].ltime + 10
 
-BackoffElapsed(key) == \E j \in Insts : inst[j].key = key /\ ~inst[j].act /\ inst[j].out = "err" /\ now >= inst[j].ltime + 10
+BackoffElapsed(key) == \E j \in Insts : KClass(inst[j].key) = KClass(key) /\ ~inst[j].act /\ inst[j].out = "err" /\ now >= inst[j].ltime + 10
                                         /\ ~Stopped(j)
 
 RetryDueNow(key) ==
-    \E j \in Insts : inst[j].key = key /\ ~inst[j].act /\ inst[j].out = "err"
+    \E j \in Insts : KClass(inst[j].key) = KClass(key) /\ ~inst[j].act /\ inst[j].out = "err"
                       /\ now - cfg.ld < inst[j].ltime + 10 /\ inst[j].ltime + 10 <= now /\ ~Stopped(j)
 
 Tick == clk' = clk + 1
@@ -179,8 +183,10 @@ PRet(e) ==
         pctx2 == IF c.op \in {"setctx", "clearctx"} THEN c.c ELSE pctx
         prt2 == IF c.op = "setroutine" THEN c.k
                 ELSE IF c.op = "setstate" /\ e.changed THEN c.k ELSE prt
+        \* (a SetState / SwapValue that the code reports as a change re-runs the routine only if the new
+        \* state really is a new state under the compare function)
         rerun == \/ c.op \in {"setroutine", "setsr"}
-                 \/ (c.op = "setstate" /\ e.changed)
+                 \/ (c.op = "setstate" /\ e.changed /\ KClass(c.k) # KClass(prt))
                  \/ (c.op = "restart" /\ e.ok)
         errNow == status # 0 /\ inst[status].out # "ok"
         rerunR == rerun \/ (c.op = "setctx" /\ c.r /\ e.changed)
@@ -218,7 +224,7 @@ PEnter(i, tag, key, dead0) ==
     \* earlier runs of the same routine/state whose exit the container recorded (its exit callbacks
     \* ran): an exit that was overtaken by a superseding call before it was recorded is not an
     \* "exit status" of the container (weaker reading)
-    LET same == {j \in Insts : inst[j].key = key /\ ~inst[j].act /\ inst[j].cur /\ <<1, j>> \in cbseen}
+    LET same == {j \in Insts : KClass(inst[j].key) = KClass(key) /\ ~inst[j].act /\ inst[j].cur /\ <<1, j>> \in cbseen}
         prev == IF same = {} THEN 0 ELSE CHOOSE j \in same : \A k \in same : inst[k].eclk <= inst[j].eclk
         \* An instance born with a cancelled context is a straggler of an earlier generation -- unless the
         \* context is the container's present one and the CLIENT cancelled it (rootdead): then it is the
@@ -246,7 +252,7 @@ PEnter(i, tag, key, dead0) ==
          \* entered in the present epoch (no superseding call returned since), no call that may
          \* re-run it returned or is pending, and no backoff retry of a recorded error is due
          \cup (LET q == Latest IN
-               IF ~td /\ ~cfg.burst /\ ~dead /\ q # 0 /\ inst[q].key = key /\ inst[q].ep = epoch
+               IF ~td /\ ~cfg.burst /\ ~dead /\ q # 0 /\ KClass(inst[q].key) = KClass(key) /\ inst[q].ep = epoch
                   /\ creditR < inst[q].eclk /\ ~PendingRerun(TRUE)
                   /\ ~(cfg.retry /\ ~inst[q].act /\ inst[q].out \in {"ok", "err"} /\ RetryDueNow(key))
                THEN {"RerunNoCause"} ELSE {})
